@@ -552,7 +552,9 @@ fn execute<T: Composer>(pool: &[String], ops: &[Op], ctl: &SinkCtl, stream: bool
             Op::Opt(size, opts, hdr) => {
                 if let Stage::Ad(b) = &mut st {
                     if model.opt.is_none() {
-                        let datas: Vec<(u16, Vec<u8>)> = opts.iter().map(|(c, l)| (*c, (0..*l).map(|i| (i as u8).wrapping_mul(7).wrapping_add(*c as u8)).collect())).collect();
+                        // (Code 12 is EDNS padding, written through the typed
+                        // `padding()` helper: that many zero octets.)
+                        let datas: Vec<(u16, Vec<u8>)> = opts.iter().map(|(c, l)| (*c, if *c == 12 { vec![0u8; *l] } else { (0..*l).map(|i| (i as u8).wrapping_mul(7).wrapping_add(*c as u8)).collect() })).collect();
                         match b.opt(|o| {
                             o.set_udp_payload_size(*size);
                             for h in hdr {
@@ -563,7 +565,11 @@ fn execute<T: Composer>(pool: &[String], ops: &[Op], ctl: &SinkCtl, stream: bool
                                 }
                             }
                             for (c, d) in &datas {
-                                o.push_raw_option(domain::base::iana::OptionCode::from_int(*c), d.len() as u16, |t| t.append_slice(d))?;
+                                if *c == 12 {
+                                    o.padding(d.len() as u16)?;
+                                } else {
+                                    o.push_raw_option(domain::base::iana::OptionCode::from_int(*c), d.len() as u16, |t| t.append_slice(d))?;
+                                }
                             }
                             Ok(())
                         }) {
@@ -706,7 +712,15 @@ fn gen_ops(pool: &[String], size_class: u64) -> Vec<Op> {
             4 => ops.push(Op::ClearLimit),
             5 if section == 3 => {
                 let n = sim::draw("ops.opt_n_options", 4) as usize;
-                let opts: Vec<(u16, usize)> = (0..n).map(|i| (65_001 + i as u16, *sim::pick("ops.opt_option_len", &[0usize, 1, 8, 40, 300]))).collect();
+                let opts: Vec<(u16, usize)> = (0..n)
+                    .map(|i| {
+                        if sim::chance("ops.opt_padding", 1, 4) {
+                            (12u16, *sim::pick("ops.opt_padding_len", &[0usize, 1, 31, 99, 100, 101, 200, 468, 1000]))
+                        } else {
+                            (65_001 + i as u16, *sim::pick("ops.opt_option_len", &[0usize, 1, 8, 40, 300]))
+                        }
+                    })
+                    .collect();
                 let hdr: Vec<HdrSet> = (0..sim::draw("ops.opt_n_hdr", 4))
                     .map(|_| match sim::draw("ops.opt_hdr", 4) {
                         0 | 3 => HdrSet::Rcode(*sim::pick("ops.opt_rcode", &[0u16, 5, 16, 23, 0xABC])),
